@@ -348,6 +348,12 @@ fn run(line: &str) -> String {
             }
             out
         }
+        "epos6_spheres" => {
+            let n = a.u();
+            let sp: Vec<Sphere> = (0..n).map(|_| Sphere::new(a.v(), a.f())).collect();
+            let b = vh::bounding_sphere::epos6_of_spheres(&sp);
+            format!("{} {:e}", fv(b.center), b.radius)
+        }
         "space_cells" => {
             // space_cells anchor width max_cell_width -> cdim, then per cell: loc width
             let sp = vh::space::SpaceHook::new(a.v(), a.v(), a.f());
